@@ -64,6 +64,7 @@ type Ctx struct {
 	Prog   *Program
 	Obs    []*Obligation
 	keys   map[string]int
+	alias  map[string]string
 	Rules  map[string]string // rule id -> rule text
 	Mins   map[string]int    // rule id -> hand-confirmed minimum instance count
 	Funcs  map[string]bool   // functions analysed
@@ -163,7 +164,28 @@ func (c *Ctx) Rule(id, text string, min int) {
 	c.Mins[id] = min
 }
 
+// As runs f with every obligation it records under rule id `from` recorded under `to` instead: a rule written for
+// one property is evaluated as a rule of another property whose statement depends on the same fact.
+func (c *Ctx) As(from, to string, f func()) {
+	if c.alias == nil {
+		c.alias = map[string]string{}
+	}
+	old, had := c.alias[from]
+	c.alias[from] = to
+	defer func() {
+		if had {
+			c.alias[from] = old
+		} else {
+			delete(c.alias, from)
+		}
+	}()
+	f()
+}
+
 func (c *Ctx) add(rule, construct, status string, pos token.Pos, detail string, evals int, nontrivial bool) *Obligation {
+	if to, ok := c.alias[rule]; ok {
+		rule = to
+	}
 	key := c.Prop + "." + rule + ":" + construct
 	if n := c.keys[key]; n > 0 {
 		c.keys[key] = n + 1
